@@ -196,10 +196,18 @@ func c14units(tier string) []mc.Unit {
 		} else {
 			c14check(r, "30 features via Write/Read", nil, rec, got)
 		}
-		r.Eval(2)
-		r.AddStates(2)
-		r.AddTransitions(2)
-		r.AddNontrivial(2)
+		// writing a shorter record over a longer one at the same path
+		small := c14rec{name: "chr2", rstart: 1, rend: 9, seq: c14seq(9), feats: rec.feats[:1]}
+		small.feats = []c14feat{{seqid: "chr2", source: "src", typ: "gene", start: 1, end: 9, score: ".", strand: "+", phase: ".", attrs: map[string]string{"ID": "x"}}}
+		if p := catch(func() { gff.Write(c14poly(rec), path); gff.Write(c14poly(small), path); got = gff.Read(path) }); p != "" {
+			r.Failf("write-read-no-panic", "Write long, Write short to the same path, Read", nil, "a record", p)
+		} else {
+			c14check(r, "Write of a long record, then Write of a short record to the same path, then Read", nil, small, got)
+		}
+		r.Eval(3)
+		r.AddStates(3)
+		r.AddTransitions(3)
+		r.AddNontrivial(3)
 	}})
 	return us
 }
